@@ -37,7 +37,7 @@ def units(tier, seed):
     n = len(POOL)
     for i in range(0, n, 20):
         us.append(('styles', i, min(n, i + 20)))
-    names = sorted(CATALOGUE) + ['va', 'va0', 'ma', 'ex1', 'ex0', 'id1', 'id2', 'vid']
+    names = sorted(CATALOGUE) + ['va', 'va0', 'ma', 'ex1', 'ex0', 'id1', 'id2', 'vid', 'p2_iv', 'p3_ivi', 'p3_ssv']
     for i in range(0, len(names), 6):
         us.append(('catalogue', i, min(len(names), i + 6), tier))
     us.append(('override',))
@@ -80,7 +80,7 @@ def run_unit(unit, drv, res, seed, tier):
         res.exhaustive_done['builtins-x-pool-both-styles'] = True
         res.sample({"method": cases[10]["src"], "global": cases[11]["src"], "vars": cases[10]["vars"]}, cap=1)
     elif kind == 'catalogue':
-        names = (sorted(CATALOGUE) + ['va', 'va0', 'ma', 'ex1', 'ex0', 'id1', 'id2', 'vid'])[unit[1]:unit[2]]
+        names = (sorted(CATALOGUE) + ['va', 'va0', 'ma', 'ex1', 'ex0', 'id1', 'id2', 'vid', 'p2_iv', 'p3_ivi', 'p3_ssv'])[unit[1]:unit[2]]
         items = []
         for name in names:
             if name in CATALOGUE:
@@ -88,7 +88,8 @@ def run_unit(unit, drv, res, seed, tier):
             else:
                 this_kind, params, flavour = {'va': (None, 'vvv', 'var'), 'va0': (None, 'vv', 'var'), 'ma': ('v', 'vv', 'this'),
                                               'ex1': (None, 'v', 'expr'), 'ex0': (None, 'v', 'expr'), 'id1': (None, 'I', 'ident'),
-                                              'id2': (None, 'Iv', 'ident'), 'vid': (None, 'vI', 'ident')}[name]
+                                              'id2': (None, 'Iv', 'ident'), 'vid': (None, 'vI', 'ident'),
+                                              'p2_iv': (None, 'iv', 'posthis'), 'p3_ivi': (None, 'ivi', 'posthis'), 'p3_ssv': (None, 'sss', 'posthis')}[name]
             arity = len(params) + (1 if flavour in ('this', 'thisopt') else 0)
             full = ([this_kind] if flavour in ('this', 'thisopt') else []) + list(params)
             reps = 6 if unit[3] == 'quick' else 30
